@@ -45,6 +45,23 @@ class TextConverter:
         #   \{[^}]*\}  - Opening brace, any content except }, closing brace
         # )?           - Make the brace group optional
         pattern = r"\\[a-zA-Z]+(?:\{[^}]*\})?"
+
+        # Commands of the symbol table that the generic pattern cannot match
+        # as a whole (e.g. \\|, \\:, \\sqrt[3]) are recognised literally,
+        # longest first, so that every supported command is convertible.
+        generic = re.compile(pattern)
+        literal_commands = sorted(
+            (
+                command
+                for command in self.symbol_mapper.get_all_supported_commands()
+                if generic.fullmatch(command) is None
+            ),
+            key=len,
+            reverse=True,
+        )
+        if literal_commands:
+            literals = "|".join(re.escape(command) for command in literal_commands)
+            pattern = f"(?:{literals})|{pattern}"
         return re.compile(pattern)
 
     def convert_latex_to_unicode(self, text: str) -> str:
